@@ -31,6 +31,9 @@ func main() {
 		case "C01", "C02", "C03", "C09", "C10", "C14", "C18":
 			m.Rule = "one case = one NewSlimTrie input (key list, encoded values, option pointers); distinct_nontrivial = distinct cases (SHA-1 of the input) with at least two keys, i.e. at least one inner node"
 			genLookup(t, m, *prop, *tier, *seed)
+		case "C13":
+			m.Rule = "one case = one key/value list built in all 16 option combinations, the Get answers of the 16 tries for one query set in one event; distinct_nontrivial = distinct lists with at least two keys"
+			genModes(t, m, *tier, *seed)
 		case "C04":
 			m.Rule = "one case = one trie (key list, encoded values, options) with its scan calls; distinct_nontrivial = distinct tries with at least two keys; every scan call (API, start, inclusivity, end, stop point, withValue) is one evaluation"
 			genScan(t, m, *tier, *seed)
